@@ -929,6 +929,183 @@ func lxRecord(out string, n int) error {
 			os.Exit(0)
 		}
 	}
+	// long expressions: the same quoted words, dozens to hundreds of them in one expression - wide
+	// disjunctions of groups, runs of negations, long value lists, deep nesting, long field lists.
+	// The rule is the one above (each quoted word denotes exactly its string; connectives have their
+	// ordinary meaning), and ".config in a filter is always rejected" however long the list it heads.
+	sizes := []int{3, 9, 12, 33, 101, 150, 400}
+	if thorough() {
+		sizes = append(sizes, 7, 8, 10, 17, 64, 65, 99, 100, 127, 128, 129, 257, 1000, 3000)
+	}
+	for _, N := range sizes {
+		for rep := 0; rep < 2; rep++ {
+			vals := make([]string, N)
+			in := map[string]bool{}
+			for i := range vals {
+				vals[i] = fmt.Sprintf("%s#%d", lxRandString(r), i)
+				in[vals[i]] = true
+			}
+			qv := func(i int) string { return strconv.Quote(vals[i]) }
+			join := func(f func(i int) string, sep string) string {
+				parts := make([]string, N)
+				for i := range parts {
+					parts[i] = f(i)
+				}
+				return strings.Join(parts, sep)
+			}
+			ev := lxEvent{Mode: "long", Hex: hex.EncodeToString([]byte(fmt.Sprintf("N=%d rep=%d", N, rep))), Str: fmt.Sprintf("%d quoted words, first %s", N, qv(0)), OK: true}
+			bad := func(sig, msg string) {
+				if ev.OK {
+					if len(msg) > 600 {
+						msg = msg[:600] + "..."
+					}
+					ev.OK, ev.Signature, ev.Detail = false, sig, msg
+				}
+			}
+			probes := []string{vals[0], vals[N-1], vals[N/2], vals[N/3], "nope", "", vals[0] + "x"}
+			filter := func(what, q string, want func(probe string) bool) {
+				ev.Exprs++
+				fr, hang := lxNewFilter(q)
+				switch {
+				case hang:
+					bad("hang", fmt.Sprintf("NewFilter(%s of %d words) did not return within %v", what, N, lxTimeout))
+					return
+				case fr.panic != nil:
+					bad("panic", fmt.Sprintf("NewFilter(%s of %d words) panicked: %v", what, N, fr.panic))
+					return
+				case fr.err != nil:
+					bad("record-long-reject", fmt.Sprintf("NewFilter(%s of %d words): %s: %.300s", what, N, lxFirstLine(fr.err), q))
+					return
+				}
+				for _, probe := range probes {
+					res := lxResult(map[string]string{"k": probe}, map[string]string{"ka": vals[0]})
+					if res == nil {
+						continue
+					}
+					m, _ := fr.f.Match(res)
+					if m.All() != want(probe) {
+						bad("record-long-denotation", fmt.Sprintf("NewFilter(%s of %d words) on k=%q gives %v: %.300s", what, N, probe, m.All(), q))
+						return
+					}
+				}
+			}
+			isIn := func(p string) bool { return in[p] }
+			notIn := func(p string) bool { return !in[p] }
+			filter("an OR of parenthesised terms", join(func(i int) string { return "(k:" + qv(i) + ")" }, " OR "), isIn)
+			filter("an OR of terms", join(func(i int) string { return "k:" + qv(i) }, " OR "), isIn)
+			filter("a run of negated terms", join(func(i int) string { return "-k:" + qv(i) }, " "), notIn)
+			filter("a conjunction of negated groups", join(func(i int) string { return "-(k:" + qv(i) + ")" }, " AND "), notIn)
+			filter("a value list", "k:("+join(qv, " OR ")+")", isIn)
+			filter("a negated value list", "-k:("+join(qv, " OR ")+")", notIn)
+			isFirst := func(p string) bool { return p == vals[0] }
+			filter("nested parentheses", strings.Repeat("(", N)+"k:"+qv(0)+strings.Repeat(")", N), isFirst)
+			filter("nested negations (an even number)", strings.Repeat("-(", 2*N)+"k:"+qv(0)+strings.Repeat(")", 2*N), isFirst)
+			// .config in a filter: rejected, with a position, whatever follows
+			for what, q := range map[string]string{
+				"a .config value list":        ".config:(" + join(qv, " OR ") + ")",
+				"an OR of .config terms":      join(func(i int) string { return ".config:" + qv(i) }, " OR "),
+				"a negated .config list":      "-(.config:(" + join(qv, " OR ") + "))",
+				"a .config term after others": join(func(i int) string { return "k:" + qv(i) }, " OR ") + " OR .config:" + qv(0),
+			} {
+				ev.Exprs++
+				fr, hang := lxNewFilter(q)
+				switch {
+				case hang:
+					bad("hang", fmt.Sprintf("NewFilter(%s of %d words) did not return within %v", what, N, lxTimeout))
+				case fr.panic != nil:
+					bad("panic", fmt.Sprintf("NewFilter(%s of %d words) panicked: %v", what, N, fr.panic))
+				case fr.err == nil:
+					bad("record-long-config-accepted", fmt.Sprintf("NewFilter(%s of %d words) accepted: %.300s", what, N, q))
+				default:
+					if v, _ := lxCheckErr("NewFilter", fr.err, q); !v.OK {
+						bad(v.Signature, v.Detail)
+					}
+				}
+			}
+			// projections: a fixed list of N values, and N fields
+			if lxHangs == 0 {
+				ev.Exprs++
+				q := "k@(" + join(qv, " ") + ")"
+				pr, hang := lxParseProj(q)
+				switch {
+				case hang:
+					bad("hang", fmt.Sprintf("Parse(fixed list of %d words) did not return within %v", N, lxTimeout))
+				case pr.panic != nil:
+					bad("panic", fmt.Sprintf("Parse(fixed list of %d words) panicked: %v", N, pr.panic))
+				case pr.err != nil:
+					bad("record-long-reject", fmt.Sprintf("Parse(fixed list of %d words): %s", N, lxFirstLine(pr.err)))
+				default:
+					fs := pr.p.Fields()
+					if len(fs) != 1 || fs[0].Name != "k" {
+						bad("record-long-denotation", fmt.Sprintf("Parse(fixed list of %d words) has fields %v", N, fs))
+						break
+					}
+					for _, probe := range probes {
+						res := lxResult(map[string]string{"k": probe}, nil)
+						if res == nil {
+							continue
+						}
+						m, _ := pr.filter.Match(res)
+						if m.All() != in[probe] {
+							bad("record-long-denotation", fmt.Sprintf("Parse(fixed list of %d words) keeps k=%q: %v", N, probe, m.All()))
+							break
+						}
+						if m.All() {
+							if got := pr.p.Project(res).Get(fs[0]); got != probe {
+								bad("record-long-denotation", fmt.Sprintf("Parse(fixed list of %d words) projects k=%q as %q", N, probe, got))
+								break
+							}
+						}
+					}
+				}
+			}
+			if lxHangs == 0 {
+				ev.Exprs++
+				key := func(i int) string { return "key" + vals[i] }
+				q := join(func(i int) string { return strconv.Quote(key(i)) }, ",")
+				pr, hang := lxParseProj(q)
+				switch {
+				case hang:
+					bad("hang", fmt.Sprintf("Parse(%d fields) did not return within %v", N, lxTimeout))
+				case pr.panic != nil:
+					bad("panic", fmt.Sprintf("Parse(%d fields) panicked: %v", N, pr.panic))
+				case pr.err != nil:
+					bad("record-long-reject", fmt.Sprintf("Parse(%d fields): %s", N, lxFirstLine(pr.err)))
+				default:
+					fs := pr.p.Fields()
+					if len(fs) != N {
+						bad("record-long-denotation", fmt.Sprintf("Parse(%d fields) has %d fields", N, len(fs)))
+						break
+					}
+					assign := map[string]string{}
+					for i := 0; i < N; i++ {
+						if fs[i].Name != key(i) {
+							bad("record-long-denotation", fmt.Sprintf("Parse(%d fields): field %d is %q, want %q", N, i, fs[i].Name, key(i)))
+							break
+						}
+						if i%3 != 1 {
+							assign[key(i)] = fmt.Sprintf("value-%d", i)
+						}
+					}
+					if res := lxResult(assign, nil); res != nil && ev.OK {
+						pk := pr.p.Project(res)
+						for i := 0; i < N; i++ {
+							if got := pk.Get(fs[i]); got != assign[key(i)] {
+								bad("record-long-denotation", fmt.Sprintf("Parse(%d fields): field %d (%q) projects %q, want %q", N, i, key(i), got, assign[key(i)]))
+								break
+							}
+						}
+					}
+				}
+			}
+			ew.emit(&ev)
+			if lxHangs > 0 {
+				ew.close()
+				fmt.Fprintf(os.Stderr, "lexer record: stopped after a call that never returned (%d events)\n", ew.n)
+				os.Exit(0)
+			}
+		}
+	}
 	if err := ew.close(); err != nil {
 		return err
 	}
